@@ -85,11 +85,13 @@ Proof.
 Qed.
 
 (* the cases covered: everything except the `linearity` checker (argument-order finding) and
-   the two floating-point semirings (ConfidenceScore: refuted; FuzzyLogic: correspondence only) *)
+   the two floating-point semirings (ConfidenceScore: refuted; FuzzyLogic: proved in PFuzzy.v
+   up to IEEE `==`, whereas C09_holds_b compares bit patterns) *)
 Definition in_scope (c : acase) : Prop :=
   match c with
   | CLinearity _ _ _ _ => False
   | CSr t _ _ _ => exact_ty t
+  | CSrRel _ _ _ _ => False      (* release-profile Cost: refuted, PSemiring.cost_release_not_semiring *)
   | _ => True
   end.
 
